@@ -39,6 +39,7 @@ type scenario struct {
 	Faults  []fault `json:"faults"`
 	Content string  `json:"content"` // plain | percent | big | mixed
 	Seed    int64   `json:"seed"`
+	Backlog int     `json:"channel_capacity"` // 0: unbuffered hand-over (logical time); >0: bursts into a buffered channel, no faults
 }
 
 type handed struct {
@@ -385,7 +386,7 @@ func runScenario(sc scenario, dir string) (res result, wit witness) {
 	if os.Getenv("PROD_DEBUG") != "" {
 		p.Logger = log.New(os.Stderr, fmt.Sprintf("[scn %d] ", sc.ID), log.Lmicroseconds)
 	}
-	ch := make(chan []byte) // unbuffered: accepting hand-over k+1 means message k was fully processed
+	ch := make(chan []byte, sc.Backlog) // unbuffered by default: accepting hand-over k+1 means message k was fully processed
 	p.Chan = ch
 	p.Topic = "verif"
 	done := make(chan error, 1)
@@ -414,7 +415,7 @@ func runScenario(sc scenario, dir string) (res result, wit witness) {
 			res.Inconcl = "producer did not take a message for 60 s (wall-clock watchdog)"
 			return false
 		}
-		if sc.Proto == "udp" && sinkUp {
+		if sc.Proto == "udp" && sinkUp && sc.Backlog == 0 {
 			// pace: UDP has no flow control; do not let the sender outrun the sink's socket buffer
 			udpSent++
 			s.waitCount(udpSent+udpBase, 300*time.Millisecond)
@@ -680,6 +681,15 @@ func clip(s string, n int) string {
 func scenarios(seed int64, thorough bool) []scenario {
 	var out []scenario
 	add := func(sc scenario) { sc.ID = len(out) + 1; sc.Seed = seed; out = append(out, sc) }
+	// no fault, a backlog on a buffered channel (the collector's own channels have capacity 1000): whatever the
+	// producer does with queued messages, each must still be delivered on its own, once, in order
+	for _, proto := range []string{"tcp", "udp"} {
+		for _, content := range []string{"plain", "percent", "mixed"} {
+			for _, n := range []int{40, 150} {
+				add(scenario{Proto: proto, Retry: 2, N: n, Content: content, Backlog: 1000})
+			}
+		}
+	}
 	// no fault: content and counts
 	for _, proto := range []string{"tcp", "udp"} {
 		for _, content := range []string{"plain", "percent", "big", "mixed"} {
@@ -741,6 +751,7 @@ func main() {
 	if dir == "" {
 		dir = os.TempDir()
 	}
+	os.MkdirAll(dir, 0o755)
 	if args.Replay != "" {
 		d, err := mon.LoadReplay(args.Replay)
 		if err != nil {
